@@ -800,7 +800,7 @@ func (p *Parser) parseImplementsInterfaces() (list ast.TypeList) {
 				}
 				list.Refs = append(list.Refs, ref)
 			} else {
-				p.errUnexpectedToken(p.read())
+				// an identifier behind a complete list starts the next definition (type A implements B type C)
 				return
 			}
 		default:
